@@ -467,6 +467,7 @@ func anywhere(r rune, p *Parser) stateFn {
 			p.emit(C0(0x1B))
 			p.mu.Lock()
 			p.state = ground
+			p.ignoreST = false
 			p.mu.Unlock()
 		})
 		return escape
